@@ -24,7 +24,10 @@ Inductive werr :=
 | IndexOutOfRange      (* runtime error: index out of range *)
 | SliceBounds          (* runtime error: slice bounds out of range *)
 | OutOfFuel            (* the fuel of a translated [for] loop ran out *)
-| ApiMisuse.           (* a transaction / statement used when it is not open *)
+| ApiMisuse            (* a transaction / statement used when it is not open *)
+| Stop (what : string). (* any other way the process ends or a call fails, named by a text (used by the schema side,
+                           Gpkg/SchemaOps.v: nil dereference, failed type assertion, log.Fatalf without an error value,
+                           an SQL error the model has no value for) *)
 
 Inductive wres (A : Type) := WOk (a : A) | WErr (e : werr).
 Arguments WOk {A} a.
@@ -79,8 +82,11 @@ Definition slice3 {A} (l : list A) (lo hi mx : Z) : wres (list A) :=
   if (lo <? 0) || (hi <? lo) || (mx <? hi) || (zlen l <? mx) then WErr SliceBounds
   else WOk (firstn (Z.to_nat (hi - lo)) (skipn (Z.to_nat lo) l)).
 
-(** [interface{}] values that occur: a column value, a geometry blob (pointer to gpkg.StandardBinary), a Go string *)
-Inductive anyv := AVal (v : value) | ABin (g : geom) | AStr (s : string).
+(** a geometry blob (pointer to gpkg.StandardBinary): the srs id in its header and the geometry *)
+Definition blob := (Z * geom)%type.
+
+(** [interface{}] values that occur: a column value, a geometry blob, a Go string *)
+Inductive anyv := AVal (v : value) | ABin (b : blob) | AStr (s : string).
 
 (** a nil processing.Feature (what a receive from the closed channel yields; never used by the code) *)
 Definition feature_nil : feature := MkFeature [] (MkGeom 0 [] 0).
@@ -141,13 +147,13 @@ Definition op_Prepare (w : world) (tx : txh) (q : sqltext) : world * (stmth * go
            end
   end.
 
-(** gpkg.NewBinary(srsid, geometry): the blob stands for the geometry itself; nil / unknown geometries
-    are refused.  (The srs id in the blob header is not part of the model.) *)
-Definition op_NewBinary (srsid : Z) (g : geom) : geom * goerr :=
-  if geom_known g then (g, None) else (g, Some (Model UnknownGeometry)).
+(** gpkg.NewBinary(srsid, geometry): the blob is the srs id for its header and the geometry itself; nil / unknown
+    geometries are refused. *)
+Definition op_NewBinary (srsid : Z) (g : geom) : blob * goerr :=
+  if geom_known g then ((srsid, g), None) else ((srsid, g), Some (Model UnknownGeometry)).
 
 (** the arguments of stmt.Exec: column values followed by ONE geometry blob *)
-Fixpoint split_args (data : list anyv) : option (list value * geom) :=
+Fixpoint split_args (data : list anyv) : option (list value * blob) :=
   match data with
   | [] => None
   | [ABin g] => Some ([], g)
@@ -155,7 +161,11 @@ Fixpoint split_args (data : list anyv) : option (list value * geom) :=
   | _ => None
   end.
 
-(** stmt.Exec(data...) = [insert_row] of the model on the table state of the open transaction *)
+(** stmt.Exec(data...) = [insert_row] of the model on the table state of the open transaction.
+    The model's rows hold geometries, not blobs: a stored geometry is understood to carry, in its blob header, the srs
+    id of its table (int32, as gpkg_geometry_columns registers it).  A blob with ANOTHER header srs id is therefore
+    outside the model and reported as such (SQLite itself would store it); the tie [C12_source_tie_writer] shows that
+    the code never hands one over, i.e. NewBinary's first argument is the table's srs id. *)
 Definition op_Exec (w : world) (s : stmth) (data : list anyv) : world * (unit * goerr) :=
   if negb (wd_prepared w) then (w, (tt, Some ApiMisuse))
   else match wd_pend w with
@@ -163,7 +173,10 @@ Definition op_Exec (w : world) (s : stmth) (data : list anyv) : world * (unit * 
        | Some (t, ts) =>
            match split_args data with
            | None => (w, (tt, Some (Model ArgCount)))
-           | Some (attrs, g) =>
+           | Some (attrs, (sid, g)) =>
+               if negb (Z.eqb sid (go_int32 (s_id (t_srs t))))
+               then (w, (tt, Some (Stop "outside the model: the srs id in the blob header is not the srs id of the table")))
+               else
                match insert_row t ts (MkFeature attrs g) with
                | Err e => (w, (tt, Some (Model e)))
                | Ok ts' => (MkWorld (wd_db w) (wd_open w) (Some (t, ts')) (wd_prepared w) true, (tt, None))
